@@ -15,7 +15,7 @@ META = dict(
     id='C10',
     level='proof',
     technique='Coq proof (price map / price graph model refined to "latest entry not after D, later insertion wins a tie", reciprocal, product along the unique path) + differential correspondence of the extracted model against ledger',
-    level_text='Theorems in coq/Properties/Properties_C10.v state, for all price histories (any number of entries, any insertion order, any moments) and all valuation moments, that the model of commodity_history_impl_t selects per commodity pair exactly the latest entry not after D (a later insertion replacing an earlier one at the same moment, nothing when every entry is later), that entries dated after D never influence an edge or a conversion, that a reversed quote is used as its reciprocal and a chain as the product along the unique path, that a converted amount is exactly price times quantity and that an amount without applicable price stays as it is; the memoising lookup equals the plain lookup for every interleaving of lookups and price recordings (so lookups made by expressions evaluated while the journal is read cannot change a report); that rests on the source fact, re-read from commodity.cc on every run (Gen/PriceMemo.v), that recording or removing a price clears the memo of every commodity. A price taken from a posting cost is dated by the date of its transaction whatever dates the posting carries; which date finalize hands to exchange() is re-read from xact.cc on every run (Gen/CostDate.v). The model is tied to the code by running generated journals through freshly built ledger (bal/reg -X/-V, prices, pricedb; exact num/den through the verif_rational hook) and the extracted model and comparing every row.',
+    level_text='Theorems in coq/Properties/Properties_C10.v state, for all price histories (any number of entries, any insertion order, any moments) and all valuation moments, that the model of commodity_history_impl_t selects per commodity pair exactly the latest entry not after D (a later insertion replacing an earlier one at the same moment, nothing when every entry is later), that entries dated after D never influence an edge or a conversion, that a reversed quote is used as its reciprocal and a chain as the product along the unique path, that a converted amount is exactly price times quantity and that an amount without applicable price stays as it is; the memoising lookup equals the plain lookup for every interleaving of lookups and price recordings (so lookups made by expressions evaluated while the journal is read cannot change a report); that rests on the source fact, re-read from commodity.cc on every run (Gen/PriceMemo.v), that recording or removing a price clears the memo of every commodity. A price taken from a posting cost is dated by the date of its transaction whatever dates the posting carries; which date finalize hands to exchange() is re-read from xact.cc on every run (Gen/CostDate.v). Under --percent a share is the quotient of two valuations made by the same rule; that both market() calls of the installed expression pass the valuation date and the -X commodity is re-read from report.cc (Gen/PercentExpr.v). The model is tied to the code by running generated journals through freshly built ledger (bal/reg -X/-V, prices, pricedb; exact num/den through the verif_rational hook) and the extracted model and comparing every row.',
     level_note='Trusted: Coq kernel; extraction + OCaml driver and the python harness for the correspondence; GMP modelled as Q. Priced pairs form a forest (unique paths): the choice Dijkstra makes among several paths is not modelled nor claimed. Fixated lot prices ({=..}), value expressions on commodities, price download (-Q) and a default commodity (D directive) are outside the model.',
     design_ref='DESIGN.md section 7 C10',
     assumptions=['the priced commodity pairs of a journal form a forest (the quantifier of the property: an edge, a reversed edge or a simple chain)',
@@ -554,19 +554,46 @@ class Query:
         self.model = None
 
 
-def accounts_of(j):
-    acc = {}
+def accounts_of(j, variant=None):
+    """account -> holdings as the report shows them: leaves (--flat), leaves and their parents
+    (no --flat), top-level accounts only (--depth 1); TOTAL is the final line"""
+    leaves, parents, total = {}, {}, []
     for a, day, q, c, lot in j.postings():
-        acc.setdefault(a, []).append((q, c, lot))
-        acc.setdefault('TOTAL', []).append((q, c, lot))
+        leaves.setdefault(a, []).append((q, c, lot))
+        parents.setdefault(a.split(':')[0], []).append((q, c, lot))
+        total.append((q, c, lot))
+    if variant == 'depth1':
+        acc = dict(parents)
+    elif variant == 'tree':
+        acc = dict(leaves)
+        acc.update(parents)
+    else:
+        acc = dict(leaves)
+    acc['TOTAL'] = total
     return acc
+
+
+def pct_rows(qr):
+    """rows of a --percent report over the holdings H:i, i in qr.sub: (name, held, parent's held)"""
+    hs = {a: h for a, h in accounts_of(qr.j).items() if a.startswith('H:') and int(a[2:]) in qr.sub}
+    allh = [x for a in sorted(hs) for x in hs[a]]
+    rows = [(a, hs[a], allh) for a in sorted(hs)]
+    if not qr.flat:
+        rows.append(('H', allh, allh))
+    return rows
 
 
 def run_query(qr):
     j = qr.j
     if qr.kind in ('bal', 'balmemo', 'balfut'):
-        args = ['-f', qr.path, 'bal', '--flat', '--empty'] + (['-X', qr.tgt] if qr.tgt else ['-V']) + \
+        v = getattr(qr, 'variant', None)
+        shape = {'tree': [], 'depth1': ['--depth', '1'], 'unround': ['--flat', '--unround']}.get(v, ['--flat'])
+        args = ['-f', qr.path, 'bal'] + shape + ['--empty'] + (['-X', qr.tgt] if qr.tgt else ['-V']) + \
                ['--now', dstr(qr.day), '--format', FMT_BAL]
+    elif qr.kind == 'pct':
+        rx = ['^H:%d$' % i for i in sorted(qr.sub)]      # several patterns: any of them
+        args = ['-f', qr.path, 'bal'] + rx + (['--flat'] if qr.flat else []) + ['--empty', '--percent'] + \
+               (['-X', qr.tgt] if qr.tgt else ['-V']) + ['--now', dstr(qr.day), '--format', FMT_BAL]
     elif qr.kind == 'reg':
         args = ['-f', qr.path, 'reg', '^W:w', '--empty'] + (['-X', qr.tgt] if qr.tgt else ['-V']) + \
                ['--no-revalued', '--now', dstr(qr.day), '--format', FMT_REG]
@@ -579,16 +606,31 @@ def run_query(qr):
     st, out, err = lib.run_ledger(args)
     qr.status = st
     qr.raw = out.decode('utf-8', 'replace')
-    qr.err = err.decode('utf-8', 'replace')[-300:]
+    qr.err_full = err.decode('utf-8', 'replace')
+    qr.err = qr.err_full[-300:]
     return qr
 
 
 def canon_impl(qr):
     """-> canonical text comparable with the model's line"""
     if qr.status != 0:
+        if qr.kind == 'pct' and 'Cannot convert a balance with multiple commodities to an amount' in qr.err_full:
+            return 'E'
         return 'E:status=%s %s' % (qr.status, qr.err.strip().split('\n')[-1][:120] if qr.err.strip() else '')
     lines = [l for l in qr.raw.split('\n') if l]
     try:
+        if qr.kind == 'pct':
+            rows = {}
+            for l in lines:
+                a, v = l.split('|', 1)
+                if not a:
+                    continue
+                d = parse_val(v)
+                if any(c != '%' for c in d):
+                    raise ValueError('not a percentage: ' + v[:100])
+                q = d.get('%', F(0))
+                rows[a] = '%d/%d' % (q.numerator, q.denominator)
+            return rows
         if qr.kind in ('bal', 'balmemo', 'balfut'):
             rows = {}
             for l in lines:
@@ -620,11 +662,13 @@ def canon_model(qr, line):
     if line.startswith('!'):
         return 'E:model ' + line
     parts = body.split(' / ') if body else []
-    if qr.kind in ('bal', 'balmemo', 'balfut'):
+    if qr.kind in ('bal', 'balmemo', 'balfut', 'pct'):
         rows = {}
         for p in parts:
             a, v = p.split('=', 1)
             rows[a] = v
+        if qr.kind == 'pct' and 'E' in rows.values():
+            return 'E'          # the first unconvertible row aborts the whole report
         return rows
     if qr.kind == 'reg':
         return parts
@@ -634,8 +678,11 @@ def canon_model(qr, line):
 def model_line(qr, n):
     j = qr.j
     t = qr.tgt.encode() if getattr(qr, 'tgt', None) else b''
+    if qr.kind == 'pct':
+        q = ['pct', t, qr.day * 86400] + [[a, hold_sx(h), hold_sx(ph)] for a, h, ph in pct_rows(qr)]
+        return lib.sx(['case', 'q%d' % n, j.items_sx(), q])
     if qr.kind in ('bal', 'balfut'):
-        acc = accounts_of(j)
+        acc = accounts_of(j, getattr(qr, 'variant', None))
         q = ['bal', t, qr.day * 86400] + [[a] + hold_sx(hs) for a, hs in sorted(acc.items())]
         return lib.sx(['case', 'q%d' % n, j.items_sx(), q])
     if qr.kind == 'balmemo':
@@ -656,11 +703,22 @@ def judge(qr, ci):
     facts = j.facts()
     bad = []
     if isinstance(ci, str):
+        if qr.kind == 'pct' and ci == 'E':
+            if not qr.tgt:
+                return []
+            try:
+                if any(set(o_convert(facts, h, qr.tgt, qr.day * 86400)) - {qr.tgt} for a, h, ph in pct_rows(qr)):
+                    return []      # an amount without a price in T: no share exists
+            except Undetermined:
+                return []
+            return [('percent-X:error', 'every amount has a price in %s, yet --percent -X fails' % qr.tgt, qr.err, 'shares')]
         return [('%s:error' % qr.kind, 'ledger failed on a valid journal', ci, 'a report')]
     if qr.kind in ('bal', 'balmemo') and qr.tgt:
         D = qr.day * 86400
         pre = 'memo:parse-time-lookup' if qr.kind == 'balmemo' else 'bal-X'
-        for a, hs in accounts_of(j).items():
+        for a, hs in accounts_of(j, getattr(qr, 'variant', None)).items():
+            if getattr(qr, 'variant', None) == 'tree' and ':' not in a and a != 'TOTAL' and a not in ci:
+                continue
             try:
                 want = o_convert(facts, hs, qr.tgt, D)
             except Undetermined:
@@ -672,7 +730,27 @@ def judge(qr, ci):
                             'account %s under -X %s --now %s shows %s, the latest prices not after that date give %s'
                             % (a, qr.tgt, dstr(qr.day), show_h(got), show_h(want)), show_h(got), show_h(want)))
                 break
-    elif qr.kind == 'bal':
+    elif qr.kind == 'pct' and qr.tgt:
+        # --percent -X T: every line's share is (its value in T as of D) / (its parent's value in T
+        # as of D), both by the property's rule
+        D = qr.day * 86400
+        try:
+            vals = {}
+            for a, h, ph in pct_rows(qr):
+                vn, vd = o_convert(facts, h, qr.tgt, D), o_convert(facts, ph, qr.tgt, D)
+                if set(vn) - {qr.tgt} or set(vd) - {qr.tgt} or not vd:
+                    return []          # something has no price in T: the share is not determined
+                vals[a] = 100 * vn.get(qr.tgt, F(0)) / vd[qr.tgt]
+        except Undetermined:
+            return []
+        for a, want in sorted(vals.items()):
+            got = ci.get(a)
+            if got is None or F(got) != want:
+                bad.append(('percent-X:wrong-share',
+                            'account %s under --percent -X %s --now %s shows %s%%; its value over its parent\'s value, both in %s by the latest prices not after that date, is %s%%'
+                            % (a, qr.tgt, dstr(qr.day), got, qr.tgt, want), str(got), str(want)))
+                break
+    elif qr.kind == 'bal' and getattr(qr, 'variant', None) in (None, 'unround'):
         # -V: the target is ledger's choice; whatever an amount was converted into, the factor must
         # be the latest price not after D (reciprocal / chain product included)
         D = qr.day * 86400
@@ -775,6 +853,7 @@ def run(ctx, n_override=None):
     res = lib.Result()
     res.rule = ('(plus: journals whose check / assert / amount-expression / automated-transaction look-ups are interleaved '
                 'with the quotes of a 2-4 link chain, a later quote on the first, a middle or the last link) '
+                'also bal --percent -X/-V over subsets of the holdings (flat and not), bal -X/-V without --flat, with --depth 1, with --unround; '
                 'journals of 1-30 recorded prices (P lines with and without time of day, per-unit / total / virtual / zero '
                 'costs, implied two-commodity rates; costed postings with their own `[DATE]`, `[DATE=AUX]`, `[=AUX]` earlier and '
                 'later than the transaction date, transactions with auxiliary dates, some reports under --aux-date) over 2-5 commodities whose priced pairs form a forest, entries on '
@@ -817,20 +896,39 @@ def run(ctx, n_override=None):
         picks.add(rng.choice(j.days))
         for d in sorted(picks):
             queries.append(Query(j, 'bal', path=j.path, tgt=rng.choice(tree + ['ZZZ'] if rng.random() < 0.05 else tree), day=d,
-                                 aux=rng.random() < 0.2))
+                                 aux=rng.random() < 0.2, variant=rng.choice([None, None, None, None, 'tree', 'depth1', 'unround'])))
         for d in rng.sample(j.v_days, min(2, len(j.v_days))):
-            queries.append(Query(j, 'bal', path=j.path, tgt=None, day=d))
+            queries.append(Query(j, 'bal', path=j.path, tgt=None, day=d, variant=rng.choice([None, None, None, 'tree', 'depth1', 'unround'])))
+        # --percent: the valuation re-used by another expression (numerator and denominator)
+        facts = j.facts()
+        for _ in range(2):
+            t = rng.choice(tree)
+            d = rng.choice(cand[len(cand) // 3:])
+            ok = []
+            for i, c in enumerate(j.comms):
+                try:
+                    if o_rate(facts, c, t, d * 86400) is not None:
+                        ok.append(i)
+                except Undetermined:
+                    pass
+            if len(ok) < 2 or rng.random() < 0.12:
+                ok = sorted(set(ok) | set(rng.sample(range(len(j.comms)), min(2, len(j.comms)))))
+            elif len(ok) > 2 and rng.random() < 0.4:
+                ok = sorted(rng.sample(ok, rng.randint(2, len(ok))))
+            queries.append(Query(j, 'pct', path=j.path, tgt=(t if rng.random() < 0.85 else None), day=d, sub=ok,
+                                 flat=rng.random() < 0.6))
         queries.append(Query(j, 'reg', path=j.path, tgt=rng.choice(tree), day=rng.choice(cand)))
         queries.append(Query(j, 'reg', path=j.path, tgt=None, day=rng.choice(cand)))
         for d in rng.sample(cand, 2):
             queries.append(Query(j, 'prices', path=j.path, day=d, aux=rng.random() < 0.2))
         queries.append(Query(j, 'pricedb', path=j.path, day=rng.choice(cand)))
         # last sentence of the property: drop every P line dated after D, nothing may change
-        bq = rng.choice([q for q in queries[-12:] if q.j is j and q.kind == 'bal' and q.tgt])
+        bq = rng.choice([q for q in queries[-16:] if q.j is j and q.kind == 'bal' and q.tgt and not getattr(q, 'variant', None) and not getattr(q, 'aux', False)] or [q for q in queries[-16:] if q.j is j and q.kind == 'bal' and q.tgt])
         fpath = ctx.path('j%d-nofuture.dat' % ji)
         with open(fpath, 'w') as f:
             f.write(j.text(drop_p_after=bq.day * 86400))
-        queries.append(Query(j, 'balfut', path=fpath, tgt=bq.tgt, day=bq.day, twin=bq))
+        queries.append(Query(j, 'balfut', path=fpath, tgt=bq.tgt, day=bq.day, twin=bq,
+                             variant=getattr(bq, 'variant', None), aux=getattr(bq, 'aux', False)))
     with ThreadPoolExecutor(max_workers=min(8, lib.NCPU)) as ex:
         list(ex.map(run_query, queries))
     lines = [model_line(q, n) for n, q in enumerate(queries)]
@@ -838,17 +936,23 @@ def run(ctx, n_override=None):
     for n, (qr, ml) in enumerate(zip(queries, mout)):
         res.evaluations += 1
         res.traces += 1
-        res.count('query:%s%s' % (qr.kind, '' if qr.kind not in ('bal', 'reg', 'balmemo', 'balfut') else ('-X' if qr.tgt else '-V')))
+        res.count('query:%s%s%s' % (qr.kind, '' if qr.kind not in ('bal', 'reg', 'balmemo', 'balfut', 'pct') else ('-X' if qr.tgt else '-V'),
+                                    ':' + qr.variant if getattr(qr, 'variant', None) else ''))
         ci = canon_impl(qr)
         cm = canon_model(qr, ml)
+        if getattr(qr, 'variant', None) == 'tree' and isinstance(ci, dict) and isinstance(cm, dict):
+            # a parent that has a single child and no posting of its own is not printed
+            cm = {k: v for k, v in cm.items() if k in ci or ':' in k or k == 'TOTAL'}
         case = dict(journal=qr.j.text() if qr.kind != 'balfut' else open(qr.path).read(), args=qr.args[2:], raw=qr.raw[:4000])
         if ci != cm:
             res.disagreements.append(dict(name='C10/' + qr.kind + ('-X' if getattr(qr, 'tgt', None) else ''),
                                           case=case, impl=diffview(ci, cm)[0], model=diffview(ci, cm)[1]))
         # non-trivial: a conversion happened / a price is listed
         nontriv = False
-        if isinstance(ci, dict):
-            acc = accounts_of(qr.j)
+        if qr.kind == 'pct':
+            nontriv = isinstance(ci, dict) and len(ci) > 1
+        elif isinstance(ci, dict):
+            acc = accounts_of(qr.j, getattr(qr, 'variant', None))
             nontriv = any(ci.get(a, '') != show(o_plain(hs)) for a, hs in acc.items())
         elif isinstance(ci, list):
             nontriv = len(ci) > 0 and (qr.kind != 'reg' or any(r.split('|')[0] != show(o_plain([h])) for r, h in zip(ci, [(q, c, l) for a, d, q, c, l in qr.j.postings() if a == 'W:w'])))
